@@ -1339,12 +1339,11 @@ let pd_of_series s =
   | NBool -> (PBool, s.scells)
   | NStr -> (PStrDt, s.scells)
   | NObj ->
-    (match s.scells with
-     | [] -> (PObject, [])
-     | _ :: _ ->
-       if forallb is_str s.scells
-       then (PStrDt, s.scells)
-       else (PObject, s.scells))
+    if forallb is_none s.scells
+    then (PObject, s.scells)
+    else if forallb is_str_or_none s.scells
+         then (PStrDt, (map none_to_nan s.scells))
+         else (PObject, s.scells)
 
 (** val starts_underscore : char list -> bool **)
 
@@ -1715,6 +1714,18 @@ let from_table c t =
                    { sdt = NStr; scells = (repeat (CStr ('-'::[])) n0) };
                    fiters = { sdt = NInt; scells =
                    (repeat (CInt (Zneg XH)) n0) } })
+
+(** val from_dataframe_call : nat -> mclass -> table -> fmodel tres **)
+
+let from_dataframe_call nargs c t =
+  match nargs with
+  | O -> from_table c t
+  | S _ -> TErr TypeError
+
+(** val cast_series : ndt -> series -> cell list tres **)
+
+let cast_series d s =
+  cast_all d (snd (pd_of_series s))
 
 (** val cell_of_ostr : char list option -> cell **)
 
